@@ -45,6 +45,7 @@ static void bufr_copy_DescValue ( BufrDescValue *dest, BufrDescValue *src );
 static void bufr_free_desc_array( char *list );
 static char *bufr_next_tmplt_value( char **rest, const char *delims );
 static int   bufr_print_tmplt_value( char *outstr, const BufrValue *bv );
+static char *bufr_read_tmplt_line( char **line, size_t *size, FILE *fp );
 
 /**
  * @english
@@ -559,7 +560,8 @@ BUFR_Template *bufr_copy_template( BUFR_Template *tmplt )
 BUFR_Template *bufr_load_template( const char *filename, BUFR_Tables *mtbls )
    {
    FILE *fp ;
-   char ligne[2048] ;
+   char *ligne = NULL;
+   size_t lsize = 0;
    char *tok;
    int  icode;
    BUFR_Tables   *tbls;
@@ -602,7 +604,7 @@ BUFR_Template *bufr_load_template( const char *filename, BUFR_Tables *mtbls )
 
    sequence = (BufrDescValueArray)arr_create( 200, sizeof(BufrDescValue), 100 );
 
-   while ( fgets(ligne,2048,fp) != NULL ) 
+   while ( bufr_read_tmplt_line( &ligne, &lsize, fp ) != NULL ) 
       {
       if ( ligne[0] == '#' ) continue;
       if ( ligne[0] == '*' ) continue;
@@ -689,6 +691,7 @@ BUFR_Template *bufr_load_template( const char *filename, BUFR_Tables *mtbls )
 
             bufr_free_tables( tbls );
             arr_free( &(sequence) );
+            free( ligne );
             return NULL;
             }
          else
@@ -805,6 +808,8 @@ BUFR_Template *bufr_load_template( const char *filename, BUFR_Tables *mtbls )
 
    fclose ( fp ) ;
 
+   if (ligne != NULL) 
+      free( ligne );
    if (kptr != NULL) 
       free( kptr );
 
@@ -832,6 +837,47 @@ BUFR_Template *bufr_load_template( const char *filename, BUFR_Tables *mtbls )
       }
 
    return tmplt;
+   }
+
+/**
+ * @english
+ * Read the next line of a template definition file, whatever its length,
+ * into a buffer that grows as needed.
+ * @param  line  address of the buffer (NULL at first), to be freed by the caller
+ * @param  size  address of its size
+ * @param  fp    file to read
+ * @return the line, including its newline if it has one, or NULL at end of file
+ * @endenglish
+ * @francais
+ * @todo translate to French
+ * @endfrancais
+ * @ingroup template internal
+ */
+static char *bufr_read_tmplt_line( char **line, size_t *size, FILE *fp )
+   {
+   size_t len = 0;
+   int    c;
+
+   while ((c = getc( fp )) != EOF)
+      {
+      if (len + 2 > *size)
+         {
+         size_t  nsize = (*size > 0) ? (*size * 2) : 2048;
+         char   *nline = (char *)realloc( *line, nsize );
+
+         if (nline == NULL) 
+            break;
+         *line = nline;
+         *size = nsize;
+         }
+      (*line)[len++] = (char)c;
+      if (c == '\n') 
+         break;
+      }
+   if (len == 0) 
+      return NULL;
+   (*line)[len] = '\0';
+   return *line;
    }
 
 /**
